@@ -153,8 +153,10 @@ add("C07", "other",
     "function literals (any nesting of the 15 binary operators on 5 levels, unary operators, both index forms, array literals, "
     "calls, literals, names) printed by the documented rules is parsed back to the same tree by the grammar model, at every "
     "operand position and also inside redundant parentheses, whatever follows it as long as that cannot continue an expression; "
-    "string literal quoting round-trips. Not proved: statements, blocks and function literals; that the lexer returns the "
-    "printed tokens (checked per tree). Decided each run: ~1500 systematic trees (every operator "
+    "string literal quoting round-trips; and (StmtProofs.v) every statement form — if, if-else with the dangling-else rule, "
+    "while, for over several iterators, return, yield, assignment, expression statements — in every body position (one-line, "
+    "braced because otherwise ambiguous, braced block, redundant braces unwrapped) and a whole input round-trip, for trees "
+    "without function literals. Not proved: function literals; that the lexer returns the printed tokens (checked per tree). Decided each run: ~1500 systematic trees (every operator "
     "pair in both nestings, every statement form in every body position) plus random and very deep trees are written out in 8 "
     "layouts (spacing, blank lines, comments, redundant parentheses and braces) and parsed by the real parser.Parse; Coq compares "
     "every result with the tree, compares the check's printer with Printer.v, the lexer model's tokens with the printed ones, and "
